@@ -12,17 +12,35 @@ the sanitiser prints per (call site, error shape); prediction and observation mu
 import json
 import os
 import re
+import shutil
+import subprocess
 
 import lib
 from lib import gN, gbool
 
 HEADER = "From CJ Require Import Common.Base C17.Model C17.Run.\n"
-ARG = {"Const": "AConst", "RawErr": "ARawErr", "ClientAddr": "AClientAddr", "Placeholder": "APlaceholder",
-       "Digest": "ADigest", "InternalErr": "AInternalErr"}
+ARG = {"Const": "AConst", "ClientAddr": "AClientAddr", "Placeholder": "APlaceholder", "Digest": "ADigest"}
+CONNOP = {"read": "OpRead", "write": "OpWrite", "close": "OpClose", "file": "OpFile", "set": "OpSet", "rawcontrol": "OpRawControl"}
+PRODUCER = {"fileconn": "PFileConn", "syscall": "PSyscall", "accept": "PAccept", "dial-covert": "PDialCovert",
+            "connect-client": "PConnectClient", "geoip": "PGeoIP", "transport": "PTransport", "proxy-header": "PProxyHeader",
+            "reviewed": "PReviewed", "unknown": "PUnknown"}
+UNSAFE = {}   # site key -> (site, unsafe arguments) of this run's regenerated table
+# mirror of the model's addr_free_producer, for messages only (the kernel decides on the regenerated table)
+ADDR_FREE = {"conn:tcp:set", "conn:tcp:rawcontrol", "syscall", "accept", "dial-covert", "reviewed"}
+
+
+def g_producer(p):
+    """walker's producer kind -> the model's [producer]"""
+    p = p or "unknown"
+    if p.startswith("conn:"):
+        _, t, o = p.split(":")
+        return "(PConn %s %s)" % ("TcpConn" if t == "tcp" else "AnyConn", CONNOP.get(o, "OpRead"))
+    return PRODUCER.get(p, "PUnknown")
 ERRNO_TEXT = {11: "resource temporarily unavailable", 22: "invalid argument", 32: "broken pipe",
               101: "network is unreachable", 103: "software caused connection abort", 104: "connection reset by peer",
               105: "no buffer space available", 5: "input/output error", 100: "network is down", 107: "transport endpoint is not connected", 110: "connection timed out",
-              111: "connection refused", 113: "no route to host", 24: "too many open files"}
+              111: "connection refused", 113: "no route to host", 24: "too many open files", 2: "no such file or directory",
+              92: "protocol not available", 95: "operation not supported", 9: "bad file descriptor", 88: "socket operation on non-socket"}
 SENT = {"rst": 1, "timeout": 2, "refused": 3, "unreachable": 4, "aborted": 5, "closed": 6}
 
 
@@ -70,6 +88,8 @@ def emit_sites(ctx, tab):
         for a in s["args"] or []:
             if a["class"] == "Sanitised":
                 args.append("ASanitised %s" % ("Conns" if s["file"].startswith("cmd/") else "Proxies"))
+            elif a["class"] in ("RawErr", "InternalErr"):
+                args.append("AErr %s" % g_producer(a.get("producer")))
             else:
                 args.append(ARG[a["class"]])
         rows.append("  {| s_file := %d; s_line := %d; s_level := %s; s_args := [%s] |}" % (
@@ -96,15 +116,31 @@ def static_part(ctx):
     known = {k["key"] for k in ctx.known}
     unsafe = []
     for s in tab["sites"]:
-        bad = [a for a in (s["args"] or []) if a["class"] in ("RawErr", "ClientAddr")]
+        bad = [a for a in (s["args"] or []) if a["class"] == "ClientAddr" or
+               (a["class"] in ("RawErr", "InternalErr") and (a.get("producer") or "unknown") not in ADDR_FREE)]
         if bad and prints_default(s["level"], order, default):
             unsafe.append((site_key(s), s, bad))
+    UNSAFE.clear()
     for key, s, bad in unsafe:
         ctx.count(("site", key), nontrivial=True, kind="site/unsafe")
+        UNSAFE[key] = (s, bad)
         if key not in known:
-            ctx.broken("site-table", "log site %s:%d (%s.%s %s) prints at the default level with argument %s classified %s: %s"
-                       % (s["file"], s["line"], s["recv"], s["method"], s["format"][:60], bad[0]["text"], bad[0]["class"], bad[0]["why"]),
+            prod = ""
+            if bad[0]["class"] != "ClientAddr":
+                prod = ("; producer kind %s = %s, which can return an error naming the client address (model: "
+                        "can_produce %s leak_witness, e.g. `file tcp <local>-><client>: fcntl: too many open files`)"
+                        % (bad[0].get("producer"), g_producer(bad[0].get("producer")), g_producer(bad[0].get("producer"))))
+            ctx.broken("site-table", "log site %s:%d (%s.%s %s) prints at the default level with argument %s classified %s: %s%s"
+                       % (s["file"], s["line"], s["recv"], s["method"], s["format"][:60], bad[0]["text"], bad[0]["class"], bad[0]["why"], prod),
                        {"site": s})
+    prods = {}
+    for s in tab["sites"]:
+        for a in s["args"] or []:
+            if a.get("producer"):
+                k = "%s%s" % ("sanitised:" if a["class"] == "Sanitised" else "raw:", a["producer"])
+                prods[k] = prods.get(k, 0) + 1
+                ctx.count(("producer", s["file"], s["line"], a["text"]), nontrivial=True, kind="producer/" + a["producer"].split(":")[0])
+    ctx.cov["producers"] = prods
     for s in tab["sites"]:
         ctx.count(("site", s["file"], s["line"]), nontrivial=True, kind="site/" + s["level"])
     # the sanitiser's shape: the model is written for exactly these cases
@@ -242,7 +278,7 @@ def gen_cases(ctx):
         fam = kind or rng.choice(["v4", "v6", "v4mapped"])
         c = {"scenario": scenario, "client": CLIENTS[fam](i), "port": 20000 + i % 40000, "addr_kind": "tcp", "reads": [],
              "err_at": {}, "geo": {}, "wrap": [], "wrap_err": None, "dial": "ok", "proxy_hdr": False, "log_ip": False,
-             "level": "", "hold": False, "ct_mode": "", "geo_after": 0, "log_env": None}
+             "level": "", "hold": False, "ct_mode": "", "geo_after": 0, "log_env": None, "real": None}
         c.update(kw)
         if at:
             c["err_at"] = dict(c["err_at"])
@@ -323,6 +359,34 @@ def gen_cases(ctx):
     for e in ([op(sysx(leaf("errno:101"))), wrap(leaf("textaddr"))] if quick else rng.sample(sh, 12)):
         add("wraperr", None, "", e, reads=data[:1], wrap=["err"], wrap_err=e, level="warn")
         add("wraperr", None, "", e, reads=data[:1], wrap=["err"], wrap_err=e)
+    # real-socket lane: the REAL failure modes of the calls whose errors reach log sites outside the relay and the
+    # classification loop — File() on the accepted socket (closed socket; descriptor exhaustion in a child process),
+    # getsockopt(SO_ORIGINAL_DST), Accept, SetDeadline on the real *net.TCPConn — and the real accept loop -> handleNewConn ->
+    # handleNewTCPConn -> min transport -> Proxy pipeline on real TCP connections (private network namespace with REDIRECT)
+    def real(mode, fault, fam, env=None):
+        return add("real", None, "", None, kind=fam, real={"mode": mode, "fault": fault}, log_env=env, _real=(mode, fault))
+    for fam in ("v4", "v6"):
+        real("direct", "none", fam)
+        real("direct", "closed", fam)
+        real("direct", "emfile", fam)
+        real("direct_tcp", "tcp_closed", fam)
+        real("accept", "emfile", fam)
+        real("accept", "relay_rst", fam)
+    real("direct", "closed", "v4", env="false")
+    real("direct", "emfile", "v6", env="0")
+    real("direct", "emfile", "v4", env="disabled")
+    real("direct", "closed", "v6", env="true")
+    real("accept", "emfile", rng.choice(["v4", "v6"]), env=rng.choice(["false", "no", ""]))
+    for fault in ("rst", "fin", "data_rst", "junk_rst", "relay_fin", "none"):
+        real("accept", fault, rng.choice(["v4", "v6"]))
+    real("accept", "rst", "v4", env="true")        # positive control: the connection description carries the address
+    real("accept", "rst", "v6", env="1")
+    real("accept", "rst", rng.choice(["v4", "v6"]), env=rng.choice(["off", "garbage", "FALSE", "true "]))
+    for _ in range(4 if quick else 24):
+        mode = rng.choice(["direct", "direct", "accept", "accept", "direct_tcp"])
+        fault = rng.choice({"direct": ["none", "closed", "emfile"], "direct_tcp": ["tcp_closed"],
+                            "accept": ["emfile", "rst", "fin", "data_rst", "junk_rst", "relay_rst", "relay_fin"]}[mode])
+        real(mode, fault, rng.choice(["v4", "v6"]), env=rng.choice([None, None, "false", "f", "nope"]))
     rp = ctx.replay or {}
     for c in rp.get("cases", []) + [f.get("case") for f in rp.get("failures", [])] + \
             [(b.get("case") or {}).get("case") for b in rp.get("theorem_or_correspondence", []) + rp.get("broken", [])]:
@@ -396,6 +460,129 @@ def observed_code(c, out):
     return None
 
 
+# real-socket lane: (mode, fault) -> (function, start of the format of the log site the provoked failure reaches,
+#                                      regex for what the site printed after its message, assumed shape when the driver
+#                                      cannot repeat the call itself)
+RST = {"k": "op", "addr": True, "i": {"k": "sys", "i": {"k": "leaf", "v": "errno:104"}}}
+EMFILE = {"k": "op", "addr": True, "i": {"k": "sys", "i": {"k": "leaf", "v": "errno:24"}}}
+REAL_SITE = {
+    ("direct", "closed"): ("handleNewConn", "failed to get file descriptor", r"failed to get file descriptor on clientConn: ?(.*)", None),
+    ("direct", "emfile"): ("handleNewConn", "failed to get file descriptor", r"failed to get file descriptor on clientConn: ?(.*)", None),
+    ("accept", "emfile"): ("handleNewConn", "failed to get file descriptor", r"failed to get file descriptor on clientConn: ?(.*)", EMFILE),
+    ("direct", "none"): ("handleNewConn", "failed to getOriginalDst", r"failed to getOriginalDst from fd: ?(.*)", "errno-from-text"),
+    ("direct_tcp", "tcp_closed"): ("handleNewTCPConn", "error occurred while setting deadline", r"error occurred while setting deadline: ?(.*)", None),
+}
+
+
+def find_site(tab, func, prefix):
+    for s in tab["sites"]:
+        if s["func"] == func and fmt_prefix(s["format"]).strip().startswith(prefix):
+            for a in s["args"] or []:
+                if a.get("producer"):
+                    return s, a
+    return None, None
+
+
+def netns_possible():
+    """can the real accept loop be run here?  (a private network namespace with REDIRECT: root + util-linux + iproute2 + iptables)"""
+    if os.environ.get("VERIF_C17_NO_NETNS") == "1":
+        return False
+    try:
+        if os.geteuid() != 0 or not (shutil.which("ip") and shutil.which("iptables") and shutil.which("unshare")):
+            return False
+        r = subprocess.run(["unshare", "-n", "sh", "-c", "ip link set lo up && iptables -t nat -A OUTPUT -p tcp --dport 443 -j REDIRECT --to-ports 41245"],
+                           capture_output=True, timeout=20)
+        return r.returncode == 0
+    except Exception:
+        return False
+
+
+def handle_real(ctx, tab, c, r, slim, alltext, all_lines, terms, tcases, st):
+    """one case of the real-socket lane: direct oracle + the terms for the correspondence"""
+    mode, fault = c["real"]["mode"], c["real"]["fault"]
+    hist = ctx.cov["histogram"]
+
+    def bump(k):
+        hist[k] = hist.get(k, 0) + 1
+    if r.get("skipped"):
+        bump("real-skipped/%s/%s" % (mode, fault))
+        st["skipped"].append("%s/%s: %s" % (mode, fault, r["skipped"]))
+        return
+    bump("real/%s/%s" % (mode, fault))
+    bump("real-mode/" + (r.get("real_mode") or "?"))
+    client = r.get("client") or c["client"]
+    enabled = c.get("log_env") in GO_TRUE
+    leaked = [f for f in r["forms"] if f in alltext]
+    produced = r.get("produced")
+    if produced and produced.get("k") not in (None, "", "nil"):
+        bump("real-outcome/call-failed/%s" % fault)
+    if r.get("echo") == "hello covert":
+        bump("real-outcome/relayed")
+    if r.get("echo") == "closed-at-once":
+        bump("real-outcome/closed-at-once")
+    if mode == "accept" and (r["out"].strip() or r.get("echo")):
+        bump("real-outcome/accepted")
+    env_txt = c.get("log_env")
+    env_txt = "<unset>" if env_txt in (None, UNSET) else repr(env_txt)
+    if enabled:
+        if mode == "accept" and fault == "rst":
+            if leaked:
+                st["controls"] += 1
+            else:
+                ctx.broken("generator-selftest", "real-socket positive control: with LOG_CLIENT_IP=%s the client address %s was not found in the "
+                           "connection description of the real accept path" % (env_txt, client), slim)
+        return
+    site, arg = None, None
+    if (mode, fault) in REAL_SITE:
+        fn, pre, rx, assumed = REAL_SITE[(mode, fault)]
+        site, arg = find_site(tab, fn, pre)
+    if leaked:
+        lines = [l for l in all_lines if any(f in l for f in leaked)]
+        key = (leak_key(tab, lines[0]) if lines else None) or "leak:unattributed:real/%s/%s" % (mode, fault)
+        prod = ""
+        if site is not None and key == site_key(site):
+            prod = " [site %s:%d, argument `%s` from producer kind %s (%s)]" % (site["file"], site["line"], arg["text"], arg.get("producer"), arg.get("producer_why"))
+        ctx.fail(key, "client address %s (form %r) appears in the log with LOG_CLIENT_IP=%s (client-address logging disabled) on a REAL TCP connection "
+                 "[%s]: provoked failure %s/%s%s%s: %s"
+                 % (client, leaked[0], env_txt, r.get("real_mode"), mode, fault,
+                    (", the real call returned `%s`" % r["produced_text"]) if r.get("produced_text") and r["produced_text"] != "<nil>" else "",
+                    prod, lines[0][:300] if lines else "?"), slim)
+    # correspondence
+    if site is not None:
+        fn, pre, rx, assumed = REAL_SITE[(mode, fault)]
+        m = re.search(rx, r["out"])
+        oc = parse_code(m.group(1)) if m else 0
+        shape = None
+        if produced and produced.get("k") not in (None, "", "nil"):
+            shape = produced
+        elif assumed == "errno-from-text":
+            if m and 100 <= oc < 1000:
+                shape = leaf("errno:%d" % (oc - 100))
+            elif m:
+                shape = leaf("textaddr" if leaked else "text")
+        elif assumed is not None and m:
+            shape = assumed
+        if shape is not None:
+            point = "PRaw" if arg["class"] != "Sanitised" else ("PPlain" if site["file"].startswith("cmd/") else "PLibPlain")
+            terms.append("LProd (%s, %s, %s, %s, %s)" % (g_producer(arg.get("producer")), point, g_shape(shape), gN(oc), gbool(bool(leaked))))
+            tcases.append((dict(c, _point=point, _shape=shape, _at="%s/%s" % (mode, fault)), r))
+            bump("real-corr/producer")
+        else:
+            st["unmatched"] += 1
+    elif mode == "accept" and fault in ("rst", "data_rst", "junk_rst", "fin", "none"):
+        shape = RST if "rst" in fault else leaf("eof")
+        cc = dict(c, _point="PDiscard", _shape=shape, _at="%s/%s" % (mode, fault))
+        terms.append("LErr (PDiscard, %s, %s, %s)" % (g_shape(shape), gN(observed_code(cc, r["out"])), gbool(bool(leaked))))
+        tcases.append((cc, r))
+        bump("real-corr/discard")
+    elif mode == "accept" and fault in ("relay_rst", "relay_fin") and r.get("echo") == "hello covert":
+        shape = RST if fault == "relay_rst" else leaf("eof")
+        cc = dict(c, _point="PStats", _shape=shape, _at="read:%s" % fault)
+        terms.append("LErr (PStats, %s, %s, %s)" % (g_shape(shape), gN(observed_code(cc, r["out"])), gbool(bool(leaked))))
+        tcases.append((cc, r))
+        bump("real-corr/relay")
+
+
 def leak_key(tab, line):
     best = None
     for s in tab["sites"]:
@@ -435,15 +622,16 @@ def run(ctx):
         return
     cases = gen_cases(ctx)
     jc = [{k: v for k, v in c.items() if not k.startswith("_")} for c in cases]
-    rc, out, res = ctx.go_inpkg("cmd/application", ".", {"zz_verif_driver_test.go": "c17/c17_driver_test.go"}, "^TestVerifC17$", jc,
+    rc, out, res = ctx.go_inpkg("cmd/application", ".", {"zz_verif_driver_test.go": "c17/c17_driver_test.go", "zz_verif_driver2_test.go": "c17/c17_real_driver_test.go"}, "^TestVerifC17$", jc,
                                 extra_overlay={"pkg/station/lib/zz_verif_c17_export.go": "c17/lib_export.go"}, timeout=900)
     if res is None or len(res) != len(cases) + 1:
         ctx.broken("driver", "Go driver did not produce results (rc=%s): %s" % (rc, out[-1500:]))
         return
-    alltext = "\n".join(r["out"] for r in res)
+    alltext = "\n".join([r["out"] for r in res] + [x for r in res for x in (r.get("setup") or [])])
     all_lines = alltext.split("\n")
     terms, tcases = [], []
     controls_ok = 0
+    real_st = {"skipped": [], "controls": 0, "unmatched": 0}
     for c, r in zip(cases, res):
         slim = {k: v for k, v in c.items() if not k.startswith("_")}
         shape = c.get("_shape")
@@ -457,7 +645,10 @@ def run(ctx):
             ctx.fail("panic/" + c["scenario"], "handler panicked: %s" % r["panic"], slim)
             continue
         if r["timeout"]:
-            ctx.broken("driver", "scenario %s did not finish in 20 s" % c["scenario"], slim)
+            ctx.broken("driver", "scenario %s did not finish in 20 s%s" % (c["scenario"], (": " + r["out"][-600:]) if c["scenario"] == "real" else ""), slim)
+            continue
+        if c["scenario"] == "real":
+            handle_real(ctx, tab, c, r, slim, alltext, all_lines, terms, tcases, real_st)
             continue
         leaked = [f for f in r["forms"] if f in alltext]
         if c.get("log_env") is not None:
@@ -493,14 +684,29 @@ def run(ctx):
             oc = observed_code(c, r["out"])
             terms.append("LErr (%s, %s, %s, %s)" % (c["_point"], g_shape(shape), gN(oc), gbool(bool(leaked))))
             tcases.append((c, r))
-    ctx.cov["positive_controls"] = controls_ok
+    ctx.cov["positive_controls"] = controls_ok + real_st["controls"]
+    ctx.cov["real_socket_lane"] = {"mode": next((r.get("real_mode") for r in res if r.get("real_mode")), None),
+                                   "skipped": real_st["skipped"][:12], "positive_controls": real_st["controls"],
+                                   "cases_without_matching_site": real_st["unmatched"],
+                                   "child_setup": [x[:300] for r in res for x in (r.get("setup") or []) if not x.startswith(("setup-log", "stats-log"))][:8]}
+    # an unsafe site of the table without a failing run found by the dynamic lanes
+    failing_keys = {f["key"] for f in ctx.failures} | {k for k in ctx.known_printed}
+    for key, (s_, bad) in UNSAFE.items():
+        if key not in failing_keys and ("gate:" + key) not in failing_keys:
+            ctx.cov.setdefault("unsafe_sites_without_failing_run", []).append(key)
     ctx.sample({"case": {k: v for k, v in cases[3].items() if not k.startswith("_")}, "observed": res[3]["out"][-400:]})
     ctx.sample({"case": {k: v for k, v in cases[40].items() if not k.startswith("_")}, "observed": res[40]["out"][-400:]})
     ctx.sample({"statistics_output": res[-1]["out"][-600:]})
     ctx.require_kinds(["noreg/read", "noreg/setdeadline", "notransport/read", "readerr/read", "found/setdeadline", "found/read",
                        "found/write", "found/close", "geo/-", "ingest_geo/-", "ingest_blocklisted/-", "wraperr/-", "ct/read", "ct/-", "dtls_real/-", "gate/ingest/disabled", "gate/ingest/enabled", "gate/prefix/disabled",
                        "gate/prefix/enabled", "gate/summary/disabled", "site/gate",
-                       "family/v4", "family/v6", "family/v4mapped", "site/Error", "site/Info", "site/Print", "site/Debug", "site/Warn"])
+                       "family/v4", "family/v6", "family/v4mapped", "site/Error", "site/Info", "site/Print", "site/Debug", "site/Warn",
+                       "producer/conn", "producer/syscall", "producer/accept", "producer/geoip", "producer/reviewed",
+                       "real/direct/closed", "real/direct/emfile", "real/direct/none", "real/direct_tcp/tcp_closed",
+                       "real-outcome/call-failed/closed", "real-outcome/call-failed/emfile", "real-corr/producer"] +
+                      (["real/accept/emfile", "real/accept/rst", "real/accept/relay_rst", "real/accept/relay_fin", "real/accept/junk_rst",
+                        "real-outcome/closed-at-once", "real-outcome/relayed", "real-outcome/accepted", "real-corr/discard", "real-corr/relay",
+                        "real-mode/netns-redirect"] if netns_possible() else []))
     mm = ctx.coq_mismatches("log", HEADER, terms, "chk", shard=500, need_vo=["C17/Run.vo"])
     if mm:
         ctx.cov["mismatches"] += len(mm)
@@ -508,6 +714,9 @@ def run(ctx):
         if c.get("log_env") is not None:
             what = "the gate: with LOG_CLIENT_IP=%r the %s site %s the client address, the station's rule says the opposite" % (
                 c["log_env"] if c["log_env"] != UNSET else "<unset>", c.get("_gate"), "printed" if any(f in alltext for f in r["forms"]) else "did not print")
+        elif c["scenario"] == "real":
+            what = "real-socket lane %s, point %s, error value %s (the real call returned `%s`): the model's producer does not allow that value or predicts a different line; printed: %s" % (
+                c["_at"], c["_point"], shape_name(c["_shape"]), r.get("produced_text"), r["out"][-300:])
         else:
             what = "%s at %s/%s, shape %s, observed code %s" % (c["_point"], c["scenario"], c["_at"], shape_name(c["_shape"]), observed_code(c, r["out"]))
         ctx.broken("correspondence", "model C17 and the implementation disagree on %d case(s); first: %s" % (len(mm), what),
